@@ -19,6 +19,14 @@ from lekkersim import logger
 from lekkersim.utils import map_args
 from lekkersim.model import SolvedModel
 
+# Verification hook (inactive unless LEKKERSIM_VERIF=1 and a callback is installed):
+# the callback is told which pair the elimination loop is about to merge and may
+# substitute any other pair of distinct live structures.
+import os as _os
+
+_VERIF_ENABLED = _os.environ.get("LEKKERSIM_VERIF") == "1"
+_VERIF_MERGE_HOOK = None
+
 
 class Solver:
     """Class Solver
@@ -395,6 +403,8 @@ class Solver:
                 if st.gone_to in st_list:
                     tar_st = st.gone_to
                     break
+            if _VERIF_ENABLED and _VERIF_MERGE_HOOK is not None:
+                source_st, tar_st = _VERIF_MERGE_HOOK(self, st_list, source_st, tar_st)
             new_st = source_st.join(tar_st)
             st_list.remove(source_st)
             st_list.remove(tar_st)
@@ -411,6 +421,10 @@ class Solver:
                     if st.gone_to in st_list:
                         tar_st = st.gone_to
                         break
+                if _VERIF_ENABLED and _VERIF_MERGE_HOOK is not None:
+                    source_st, tar_st = _VERIF_MERGE_HOOK(
+                        self, st_list, source_st, tar_st
+                    )
                 new_st = source_st.join(tar_st)
                 st_list.remove(source_st)
                 st_list.remove(tar_st)
